@@ -10,3 +10,5 @@ open GV.Transcript.Gen
 #print axioms C15gen_run
 #print axioms C15gen_compute_is_spec
 #print axioms C15gen_error_leaves_state
+#print axioms C15gen_bind_hasher
+#print axioms C15gen_hasher_clean
